@@ -11,7 +11,7 @@ Import ListNotations.
 (* ------------------------------------------------------------------ values, environments *)
 Definition has_ty (v : value) (t : ty) : Prop :=
   match v, t with
-  | VInt _, TInt | VBool _, TBool | VVoid, TVoid | VStr _, TStr => True
+  | VInt _, TInt | VBool _, TBool | VVoid, TVoid | VStr _, TStr | VArr _, TArr => True
   | _, _ => False
   end.
 
@@ -113,6 +113,29 @@ Lemma ty_expr_call F G L f args :
   end.
 Proof. reflexivity. Qed.
 
+Definition elems_ok (F : sigs) (G L : tenv) : list expr -> bool :=
+  fix go (l : list expr) {struct l} : bool :=
+    match l with
+    | [] => true
+    | a :: l' => match ty_expr F G L a with Some TInt => go l' | _ => false end
+    end.
+
+Lemma ty_expr_arr F G L es :
+  ty_expr F G L (EArr es) = if elems_ok F G L es then Some TArr else None.
+Proof. reflexivity. Qed.
+
+Lemma elems_ok_spec F G L es : elems_ok F G L es = true -> Forall (fun a => ty_expr F G L a = Some TInt) es.
+Proof.
+  induction es as [|a l IH]; simpl; intros H; [constructor|].
+  destruct (ty_expr F G L a) as [[| | | |]|] eqn:E; try discriminate. constructor; auto.
+Qed.
+
+Lemma ints_of_ok vs : Forall (fun v => has_ty v TInt) vs -> exists l, ints_of vs = Some l.
+Proof.
+  induction 1 as [|v vs Hv _ [l IH]]; simpl; [eauto|].
+  destruct v; simpl in Hv; try contradiction. rewrite IH. eauto.
+Qed.
+
 Lemma args_ok_spec F G L args ps : args_ok F G L args ps = true ->
   Forall2 (fun a t => ty_expr F G L a = Some t) args ps.
 Proof.
@@ -172,7 +195,7 @@ Proof.
     + injection H as <- _ _. discriminate.
   - (* if *)
     apply andb_true_iff in R. destruct R as [R1 R2].
-    split_bind H E0. destruct a as [zz|bb| |ss]; try discriminate H.
+    split_bind H E0. destruct a as [zz|bb| |ss|ll]; try discriminate H.
     split_bind H E1. destruct a as [c1 e1]. simpl in H.
     injection H as <- _ _. destruct bb; [eapply IHs1|eapply IHs2]; eauto.
   - (* return *)
@@ -267,6 +290,24 @@ Proof.
   eapply good_bind; [apply IH|]. intros vs o2 _ Hvs. constructor; assumption.
 Qed.
 
+Lemma elems_sound fuel L en : expr_sound fuel -> env_ok en L -> forall es,
+  Forall (fun a => ty_expr F G L a = Some TInt) es -> forall out,
+  good (fun vs => Forall (fun v => has_ty v TInt) vs)
+    ((fix eval_elems (l : list expr) (out0 : list N) : res (list value) :=
+        match l with
+        | [] => Ok [] out0
+        | a :: r => bind (eval_expr fns fuel genv en a out0) (fun v out1 =>
+                    bind (eval_elems r out1) (fun vs out2 => Ok (v :: vs) out2))
+        end) es out).
+Proof.
+  intros IHe He es Ea. induction Ea as [|a l Ha Hrest IH]; intros out0; [constructor|].
+  eapply good_bind; [apply (IHe _ _ _ _ out0 He Ha)|]. intros v o1 _ Hv.
+  eapply good_bind; [apply IH|]. intros vs o2 _ Hvs. constructor; assumption.
+Qed.
+
+Lemma arr_inv v : has_ty v TArr -> exists l, v = VArr l.
+Proof. destruct v; simpl; try contradiction. eauto. Qed.
+
 Lemma expr_step fuel : expr_sound fuel -> stmt_sound fuel -> expr_sound (S fuel).
 Proof.
   intros IHe IHs L en e t out He Ht. destruct e; cbn [eval_expr exec_stmt exec_for].
@@ -330,6 +371,27 @@ Proof.
     destruct (ty_eqb ta tb) eqn:Q; [|discriminate]. injection Ht as <-. apply ty_eqb_eq in Q. subst tb.
     eapply good_bind; [apply (IHe _ _ _ _ out He Ec)|]. intros vc o1 _ Hvc.
     destruct (bool_inv _ Hvc) as [[|] ->]; [apply (IHe _ _ _ _ o1 He Ea)|apply (IHe _ _ _ _ o1 He Eb)].
+  - (* array literal *)
+    rewrite ty_expr_arr in Ht. destruct (elems_ok F G L es) eqn:Ea; [|discriminate]. injection Ht as <-.
+    apply elems_ok_spec in Ea.
+    match goal with |- good _ (bind ?ra _) => assert (HA : good (fun vs => Forall (fun v => has_ty v TInt) vs) ra) end.
+    { apply (elems_sound fuel L en IHe He es Ea). }
+    eapply good_bind; [exact HA|]. intros vs o1 _ Hvs.
+    destruct (ints_of_ok _ Hvs) as [l ->]. exact I.
+  - (* at: an index out of range is a fault, not a stuck state *)
+    simpl in Ht. destruct (ty_expr F G L e1) as [ta|] eqn:Ea; [|discriminate].
+    destruct ta; try discriminate.
+    destruct (ty_expr F G L e2) as [ti|] eqn:Ei; [|discriminate].
+    destruct ti; try discriminate. injection Ht as <-.
+    eapply good_bind; [apply (IHe _ _ _ _ out He Ea)|]. intros va o1 _ Hva.
+    eapply good_bind; [apply (IHe _ _ _ _ o1 He Ei)|]. intros vi o2 _ Hvi.
+    destruct (arr_inv _ Hva) as [l ->]. destruct (int_inv _ Hvi) as [k ->].
+    destruct (arr_get l k); exact I.
+  - (* array_length *)
+    simpl in Ht. destruct (ty_expr F G L e) as [ta|] eqn:Ea; [|discriminate].
+    destruct ta; try discriminate. injection Ht as <-.
+    eapply good_bind; [apply (IHe _ _ _ _ out He Ea)|]. intros va o1 _ Hva.
+    destruct (arr_inv _ Hva) as [l ->]. exact I.
 Qed.
 
 (* re-base the suffix part of a statement's post-condition on an outer scope *)
